@@ -164,6 +164,20 @@ func (tc *TypeChecker) CheckType(value interface{}, expectedType Type) error {
 		}
 	}
 
+	// List[T] / List<T> is parsed as a generic type, not as an array type, so
+	// its elements need the same check as those of [T].
+	if genericType, ok := expectedType.(GenericType); ok {
+		if base, ok := genericType.BaseType.(NamedType); ok && base.Name == "List" && len(genericType.TypeArgs) == 1 {
+			if arr, ok := value.([]interface{}); ok {
+				for i, elem := range arr {
+					if err := tc.CheckType(elem, genericType.TypeArgs[0]); err != nil {
+						return fmt.Errorf("array element %d: %v", i, err)
+					}
+				}
+			}
+		}
+	}
+
 	// For named types, validate against TypeDef if it exists
 	if namedType, ok := expectedType.(NamedType); ok {
 		if typeDef, exists := tc.typeDefs[namedType.Name]; exists {
